@@ -22,6 +22,7 @@ Protocol (stateful; one history per stream):
                                 one row per return value: y_j = sat(Σ_i C[j][i]·x_i)   → `ok n<k> … n<k+r-1>`
   M <g> <a> <b>                 elementwise product user operator
   S <g> <a>                     stop_gradient (the library's own operator)
+  F <g> <a>                     flatten (the library's own operator: its value is a view of the argument's memory)
   N <g> <a>                     user operator with identity forward and NOP backward
   R <g>                         random source (user operator drawing the next sample of a global stream)
   failin <k>                    the (k+1)-th operator forward from now throws
@@ -70,6 +71,18 @@ def mulSem : OpSem T where
   bwd xs _ gys := match xs, gys with
     | [a, b], [g] => [some (satV (mulV g b)), some (satV (mulV g a))]
     | _, _ => []
+
+/-- the library's `Flatten` operator on the vectors of this family: identity forward (a view of the argument's
+memory in the implementation), the gradient passed through unchanged -/
+def idPassSem : OpSem T where
+  nret := 1
+  fwd xs := match xs with
+    | [a] => some [a]
+    | _ => none
+  bwd _ _ gys := match gys with
+    | [g] => [some g]
+    | _ => [none]
+  faulty := false
 
 def idNopSem : OpSem T where
   nret := 1
@@ -206,6 +219,9 @@ def step (s : St) (line : String) : St × String :=
     | none => (s, "bad-op")
   | ["S", g, a] => match g.toNat? with
     | some g => addOp s g (.op { idNopSem with faulty := false }) 1 [a] true
+    | none => (s, "bad-op")
+  | ["F", g, a] => match g.toNat? with
+    | some g => addOp s g (.op idPassSem) 1 [a] true
     | none => (s, "bad-op")
   | ["N", g, a] => match g.toNat? with
     | some g => addOp s g (.op idNopSem) 1 [a]
